@@ -11,6 +11,7 @@ from .dense import dense_cores, dense_b_cores, mat, tt_consistent, Snap
 
 sle = None
 TRACE = None  # list of micro-step records of the solver call in flight (outermost call only)
+CURRENT_PROP = None  # set by a caller-side contract (TDVP) so that hook observations are attributed to its property
 
 
 def left_block(cores, i):
@@ -63,11 +64,11 @@ class MicroMatrix(probe.Contract):
         tags = ['complex'] if (np.iscomplexobj(A) or np.iscomplexobj(P)) else []
         c.check(self.api, 'equals_projected_operator', ok, tags + ['site=%s' % ('first' if i == 0 else 'last' if i + self.width == operator.order else 'inner')] if not ok else (),
                 {'site': i, 'order': operator.order, 'err': float(np.max(np.abs(res - want))) if res.shape == want.shape else None, 'scale': sc,
-                 'ranks': list(solution.ranks)}, prop=self.prop)
+                 'ranks': list(solution.ranks)}, prop=CURRENT_PROP or self.prop)
         herm = float(np.max(np.abs(A - A.conj().T))) <= 1e-12 * max(float(np.max(np.abs(A))), 1e-300)
         if herm:
             okh = float(np.max(np.abs(res - res.conj().T))) <= 1e-9 * max(sc, 1e-300)
-            c.check(self.api, 'hermitian_for_hermitian_operator', okh, tags if not okh else (), {'site': i}, prop=self.prop)
+            c.check(self.api, 'hermitian_for_hermitian_operator', okh, tags if not okh else (), {'site': i}, prop=CURRENT_PROP or self.prop)
 
 
 class MicroRhs(probe.Contract):
